@@ -112,6 +112,8 @@ def run(tier, seed, rng):
         cfg['kl_clip'] = {'tiny': 1e-6, 'huge': 1e9, 'mid': 0.05, 'none': None, 'small': 1e-9,
                           'table': ['table', [rng.choice([1e-6, 1e-3, 1e3]) for _ in range(8)]]}[mode]
         cfg['lr'] = rng.choice([0.5, 1.0, 0.125, ['table', [rng.choice([0.5, 2.0, 0.25]) for _ in range(8)]]])
+        if k % 6 == 3 and mode in ('tiny', 'mid', 'huge'):
+            mode = 'int'; cfg['kl_clip'] = 1; cfg['lr'] = rng.choice([64.0, 256.0])
         if mode == 'small':
             # |s| = lr^2 |sum <V, D>| lands between kl_clip = 1e-9 and the float32 machine epsilon: small but NOT zero, clipping binds
             cfg['lr'] = rng.choice([1e-4, 3e-5])
